@@ -751,6 +751,106 @@ def r6(ctx):
     ctx.emit('C05-R6', ok, TAGGING, w[0] if w else g, 'worker writer context and tagging task share one read_groups dict', key='worker:read-groups-dict', nontrivial=False)
 
 
+def _merge_model(ctx):
+    """merge_bams run by the abstract interpreter on a model file system (a file is the multiset of the record tokens it holds; merge / move / remove / index do what they
+    say) for 1..12 indexed input files, with and without a samtools executable: the output holds every token of every input exactly once, is indexed after its last change,
+    and the inputs are gone.  (ok, cases, witness) or None outside the interpreted subset."""
+    import collections
+    from ..consteval import run_function, module_scope, Unfoldable, Raised
+    g = ctx.fn(BAMFUNC, 'merge_bams')
+    n = 0
+    try:
+        env = dict(module_scope(ctx.ix, BAMFUNC))
+        for have_samtools in (False, True):
+            for k in range(1, 13):
+                n += 1
+                fs = {}
+                for i in range(k):
+                    fs[f'job{i}.bam'] = collections.Counter({f'r{i}a': 1, f'r{i}b': 1})
+                    fs[f'job{i}.bam.bai'] = ('index', tuple(sorted(fs[f'job{i}.bam'].items())))
+                log = []
+
+                def merge(out, ins):
+                    tot = collections.Counter()
+                    for p_ in ins:
+                        if p_ not in fs:
+                            raise Raised('FileNotFoundError', p_)
+                        tot.update(fs[p_])
+                    fs[out] = tot
+
+                def hook(ev, call, env_):
+                    d = dotted(call.func) or ''
+                    if d in ('os.path.exists', 'exists'):
+                        return ev.ev(call.args[0], env_) in fs
+                    if d in ('move', 'shutil.move', 'os.rename', 'os.replace'):
+                        a, b = [ev.ev(x, env_) for x in call.args[:2]]
+                        if a not in fs:
+                            raise Raised('FileNotFoundError', a)
+                        fs[b] = fs.pop(a)
+                        return None
+                    if d in ('which', 'shutil.which'):
+                        return '/usr/bin/samtools' if have_samtools else None
+                    if d == 'os.system':
+                        cmd = ev.ev(call.args[0], env_).split()
+                        if cmd[:2] == ['samtools', 'merge']:
+                            paths = [c_ for c_ in cmd[2:] if c_.endswith('.bam')]
+                            out = cmd[cmd.index('-o') + 1] if '-o' in cmd else paths[0]
+                            merge(out, [p_ for p_ in paths if p_ != out])
+                            return 0
+                        return 0
+                    if d == 'pysam.merge':
+                        a = []
+                        for x in call.args:
+                            a.extend(list(ev.ev(x.value, env_)) if isinstance(x, ast.Starred) else [ev.ev(x, env_)])
+                        paths = [x for x in a if isinstance(x, str) and not x.startswith('-')]
+                        merge(paths[0], paths[1:])
+                        return None
+                    if d == 'pysam.index':
+                        p_ = ev.ev(call.args[0], env_)
+                        fs[p_ + '.bai'] = ('index', tuple(sorted(fs[p_].items())))
+                        return None
+                    if d in ('os.remove', 'os.unlink'):
+                        p_ = ev.ev(call.args[0], env_)
+                        if p_ not in fs:
+                            raise Raised('FileNotFoundError', p_)
+                        del fs[p_]
+                        return None
+                    if d in ('sys.stderr.write', 'print'):
+                        return None
+                    if d in ('uuid.uuid4', 'uuid4', 'uuid.uuid1'):
+                        log.append('id')
+                        return f'id{len(log)}'
+                    return NotImplemented
+                ins = [f'job{i}.bam' for i in range(k)]
+                try:
+                    run_function(g, [list(ins), 'out.bam'], env=env, call_hook=hook, budget=100000)
+                except Raised as r_:
+                    if r_.name in ('FileNotFoundError', 'AssertionError', 'IndexError', 'KeyError'):
+                        return (False, n, {'input files': k, 'samtools available': have_samtools, 'problem': f'merge_bams raises {r_.name} ({str(r_)[:60]})'})
+                    raise
+                want = collections.Counter()
+                for i in range(k):
+                    want.update({f'r{i}a': 1, f'r{i}b': 1})
+                got = fs.get('out.bam')
+                problem = None
+                if got != want:
+                    missing = sorted((want - (got or collections.Counter())).keys())
+                    twice = sorted(k_ for k_, v_ in (got or {}).items() if v_ > 1)
+                    problem = f'the merged file lacks the records of {sorted({m_[:-1] for m_ in missing})} / holds {twice} twice' if got is not None else 'no output file'
+                elif fs.get('out.bam.bai') != ('index', tuple(sorted(want.items()))):
+                    problem = 'the output is not indexed after its last change'
+                elif [p_ for p_ in ins if p_ in fs]:
+                    problem = f'input files {[p_ for p_ in ins if p_ in fs]} are left behind'
+                if problem:
+                    return (False, n, {'input files': k, 'samtools available': have_samtools, 'problem': problem})
+        return (True, n, None)
+    except (Unfoldable, Raised):
+        return None
+    except Exception:
+        return None
+
+
+
 class _ModelBam:
     """stand-in for the input BAM inside the task-generation model: reads are (start, end) intervals per contig"""
     def __init__(self, reads):
@@ -953,6 +1053,12 @@ def r7(ctx):
     ok = {'contig', 'start', 'end', 'fetch_start', 'fetch_end'} <= keys and keys <= params
     ctx.emit('C05-R7', ok, TAGGING, gt, f'task dictionaries carry {sorted(keys)}; all are parameters of run_tagging_task', key='task-fields')
     _task_generation_model(ctx, gt)
+    mm = _merge_model(ctx)
+    if mm is not None:
+        ctx.counters['interpreted_cases'] = ctx.counters.get('interpreted_cases', 0) + mm[1]
+        ctx.emit('C05-R7', mm[0], BAMFUNC, ctx.fn(BAMFUNC, 'merge_bams'), f'merge_bams on a model file system, 1..12 indexed inputs with and without samtools ({mm[1]} cases): the output holds every record of every input once, '
+                 'is indexed last, the inputs are removed' if mm[0] else f'merge_bams on a model file system: {mm[2]}', key='merge-keeps-every-input', witness=mm[2],
+                 what='merge_bams loses / duplicates the records of an input file')
     # every task owns its dictionary: what is put into a job's task list is built inside the per-task iteration (a dictionary created once and
     # updated per task is the same object in every slot - all tasks of a job then describe the last region)
     aliased = []
